@@ -245,13 +245,18 @@ def throttleKind : Kind where
 `race n`: the harness runs `n` rounds outside the virtual clock: a goroutine calls `Next` on a fresh throttle and
 another calls `Cancel` at (almost) the same moment, with a varying head start.  Whatever the interleaving, the
 specification (`no_permission_after_cancel`, `cancel_releases_blocked`: after `Cancel` nobody stays blocked and
-`Next` answers `false`) allows one answer only: every round ends with `Next` having returned `false`. -/
+`Next` answers `false`) allows one answer only: every round ends with `Next` having returned `false`.  `stuck` is
+reported by the harness only when the caller of `Next` is seen parked in `sync.Cond.Wait` after `Cancel` has
+returned (a state, not a time-out); a round that merely takes long is `slow` and gets no verdict. -/
 def throttleRaceKind : Kind where
   σ := Unit
   init := fun _ => some ()
   step := fun st l =>
     match l.op, l.args with
     | "race", [.int _] =>
+      match l.res with
+      | .atom "slow" :: _ => { st := st, tags := ["throttle:cancel-races-next:slow-no-verdict"] }
+      | _ =>
       { st := st, model := some [.atom "ok"], tags := ["throttle:cancel-races-next"], nontrivial := true
         spec := if l.res == [.atom "ok"] then none else some "throttle:cancel-releases-blocked-next" }
     | _, _ => { st := st, bad := some s!"throttlerace: bad line {l.op}" }
